@@ -142,15 +142,19 @@ impl TreeNodeWithPreviousValue {
         // our "target_epoch" may point to some older data. Therefore we may need to load a previous
         // version of this node.
         if self.latest_node.last_epoch > target_epoch {
-            if let Some(previous_node) = &self.previous_node {
-                Ok(previous_node.clone())
-            } else {
-                // no previous, return not found
-                Err(StorageError::NotFound(format!(
+            match &self.previous_node {
+                // The previous node only answers for the target epoch if it is not itself newer
+                // than the target: a reader that lags storage by two or more epochs would
+                // otherwise be served the state of a different epoch than the one it asked for.
+                Some(previous_node) if previous_node.last_epoch <= target_epoch => {
+                    Ok(previous_node.clone())
+                }
+                // no previous (or only a newer previous), return not found
+                _ => Err(StorageError::NotFound(format!(
                     "TreeNode {:?} at epoch {}",
                     NodeKey(self.label),
                     target_epoch
-                )))
+                ))),
             }
         } else {
             // Otherwise the currently targeted epoch just points to the most up-to-date value, retrieve that
